@@ -698,3 +698,49 @@ pub fn check_history(
 pub fn tables_keys(t: &Tables) -> Vec<Vec<u8>> {
     t.keys.iter().filter(|k| !k.is_empty() && k.len() < 100 * 1024).cloned().collect()
 }
+
+/// The C05 partition invariants on a live, quiescent store (no call in flight, flush
+/// acknowledged, nothing buffered).
+pub fn structural_live(cfg: &Cfg, d: &feoxdb::verif::StoreDump) -> Vec<String> {
+    let mut v = Vec::new();
+    let total = cfg.total_blocks();
+    let mut owned: Vec<(u64, u64, &Vec<u8>)> = d.records.iter().map(|r| (r.sector, r.blocks, &r.key)).collect();
+    owned.sort();
+    let mut cursor = 16u64;
+    let mut gaps: Vec<(u64, u64)> = Vec::new();
+    for (s, n, k) in &owned {
+        if *s == 0 {
+            v.push(format!("C05: key {} has no extent although the flush was acknowledged", show(k)));
+            continue;
+        }
+        if *s < 16 || s + n > total {
+            v.push(format!("C05: extent {s}+{n} of key {} lies outside the data area [16,{total})", show(k)));
+            continue;
+        }
+        if *s < cursor {
+            v.push(format!("C05: extent {s}+{n} of key {} overlaps another live record's extent", show(k)));
+            continue;
+        }
+        if *s > cursor {
+            gaps.push((cursor, s - cursor));
+        }
+        cursor = s + n;
+    }
+    if cursor < total {
+        gaps.push((cursor, total - cursor));
+    }
+    if v.is_empty() && d.free_runs != gaps {
+        v.push(format!(
+            "C05: at quiescence the free runs {:?} are not exactly the blocks owned by no live record {:?}",
+            d.free_runs, gaps
+        ));
+    }
+    if d.free_runs != d.free_runs_by_size {
+        v.push("C05: the two free-space indexes disagree".into());
+    }
+    let blocks: u64 = owned.iter().map(|o| o.1).sum();
+    if d.disk_usage != blocks * BLOCK as u64 {
+        v.push(format!("C05: disk usage counter {} but live extents total {}", d.disk_usage, blocks * BLOCK as u64));
+    }
+    v
+}
